@@ -7,7 +7,10 @@ that returns one word token covering exactly the slice it is given and remembers
 On every path: no panic; every word token of the result covers exactly the characters the inner parser saw (true
 offset); every Newline token the wrapper inserts is one character wide and sits on a line feed; tokens are in order.
 
-usage: python3-vt c04.py <core-mir> <comments-mir> <Unit|Go|JsDoc> <L> <repo-root>
+With a skeleton instead of a length (`?` = symbolic character, `\\n` = line feed, the rest literal; Unit only) the code-fence
+rule is checked as well: nothing on a line inside a ``` fence is handed to the inner parser, prose lines outside are.
+
+usage: python3-vt c04.py <core-mir> <comments-mir> <Unit|Go|JsDoc> <L | skeleton> <repo-root>
 """
 import json
 import os
@@ -22,6 +25,12 @@ from adts import load_enums, load_type_names
 
 
 def run(core_mir, comments_mir, which, L, repo_root):
+    skeleton = None
+    if not str(L).isdigit():
+        # a skeleton: `?` is a fully symbolic character, `\\n` a line feed, everything else is literal
+        skeleton = str(L).replace("\\n", "\n")
+        L = len(skeleton)
+    L = int(L)
     raw = load_functions(core_mir)
     raw.update(load_functions(comments_mir))
     enums = load_enums(os.path.join(repo_root, "harper-core", "src"))
@@ -43,8 +52,13 @@ def run(core_mir, comments_mir, which, L, repo_root):
         return "".join(chr(model.eval(c, model_completion=True).as_long()) for c in chars)
 
     def body(ctx):
-        for c in chars:
+        for i_, c in enumerate(chars):
             ctx.assume(z3.And(z3.ULE(c, 0x10FFFF), z3.Or(z3.ULT(c, 0xD800), z3.UGT(c, 0xDFFF))))
+            if skeleton is not None:
+                if skeleton[i_] != "?":
+                    ctx.assume(c == ord(skeleton[i_]))
+                else:
+                    ctx.assume(c != 10)  # the line structure of a skeleton is fixed
         src = VecObj([Int(c, 32) for c in chars])
         seen = []
 
@@ -95,6 +109,31 @@ def run(core_mir, comments_mir, which, L, repo_root):
             if prev_end is not None:
                 claims.append((z3.ULE(prev_end, s_), "tokens are out of order or overlap"))
             prev_end = e_
+        if skeleton is not None and which == "Unit":
+            # code fences (reference): a line whose text, after leading comment initiators / blanks, starts with three
+            # backticks toggles the fence; a fully symbolic line of three characters is a fence iff all three are backticks.
+            # Nothing on a non-fence line that lies inside a fence may be handed to the inner parser; a plain-letter line
+            # outside every fence must be.
+            lines, pos = [], 0
+            for ln in skeleton.split("\n"):
+                lines.append((pos, pos + len(ln), ln))
+                pos += len(ln) + 1
+            fences = []
+            for lo, hi, ln in lines:
+                if "?" not in ln:
+                    fences.append(z3.BoolVal(ln.lstrip("/*!# \t").startswith("```")))
+                elif ln == "???":
+                    fences.append(z3.And(*[chars[lo + j] == 96 for j in range(3)]))
+                else:
+                    raise Unsupported("skeleton lines must be literal or exactly `???`")
+            inside = z3.BoolVal(False)
+            for k, (lo, hi, ln) in enumerate(lines):
+                offered = [s_ for s_ in seen if s_[1] > s_[0] and lo <= s_[0] < max(hi, lo + 1)]
+                if offered:
+                    claims.append((z3.Or(fences[k], z3.Not(inside)), "text inside a code fence was handed to the prose parser"))
+                elif ln.isalpha():
+                    claims.append((inside, "a prose line outside every code fence was not handed to the prose parser"))
+                inside = z3.Xor(inside, fences[k])
         for claim, what in claims:
             ok, model = ctx.valid(claim, nice)
             if not ok:
@@ -112,7 +151,7 @@ def run(core_mir, comments_mir, which, L, repo_root):
 
 if __name__ == "__main__":
     try:
-        r = run(sys.argv[1], sys.argv[2], sys.argv[3], int(sys.argv[4]), sys.argv[5])
+        r = run(sys.argv[1], sys.argv[2], sys.argv[3], sys.argv[4], sys.argv[5])
         r["status"] = "violated" if (r["violations"] or r["panics"]) else "holds"
     except Unsupported as e:
         r = {"status": "unsupported", "why": str(e)}
